@@ -67,6 +67,9 @@ type ChainReq struct {
 	// MaxPolls is reached; the result lists the distinct consecutive replies.
 	Poll    *PollSpec `json:"poll,omitempty"`
 	SleepMs int       `json:"sleep_ms,omitempty"`
+	// NoFDs: while this datagram is handled the process cannot open another descriptor (RLIMIT_NOFILE soft
+	// limit 0): whatever the send path needs to open then, it does not get
+	NoFDs bool `json:"no_fds,omitempty"`
 }
 
 type FileWrite struct {
@@ -542,6 +545,16 @@ func chainChild() {
 			time.Sleep(time.Duration(rq.SleepMs) * time.Millisecond)
 		}
 		do := func() []server.VerifCapture {
+			if rq.NoFDs {
+				var lim syscall.Rlimit
+				if syscall.Getrlimit(syscall.RLIMIT_NOFILE, &lim) == nil {
+					zero := lim
+					zero.Cur = 0
+					if syscall.Setrlimit(syscall.RLIMIT_NOFILE, &zero) == nil {
+						defer syscall.Setrlimit(syscall.RLIMIT_NOFILE, &lim)
+					}
+				}
+			}
 			if rq.V6 {
 				return s6.Do(data, rq.RxIf, peer)
 			}
